@@ -13,6 +13,7 @@ jitted code before anything is reported.
 """
 import json
 import os
+import sys
 import time
 import traceback
 from fractions import Fraction
@@ -382,7 +383,9 @@ def run_case(case, seed=0, replay_dir=None, known=None):
                 break
             twins["tried"] += 1
             polys2 = qdom.diff_polys(lhs, rhs * 2 if hasattr(rhs, "__mul__") else rhs)
-            if polys2 is not None and any(isinstance(d, P) for d in polys2) and _sample_nonzero(polys2, V, seed + 7, pre=pre + side, case=case) is not None:
+            if os.environ.get("VERIF_DEBUG_SAMPLE"):
+                print(f"[twin] {label}: polys2={'None' if polys2 is None else [type(d).__name__ for d in polys2]} sizes {_size(lhs)} {_size(rhs)}", file=sys.stderr)
+            if polys2 is not None and _sample_nonzero(polys2, V, seed + 7, pre=pre + side, case=case) is not None:
                 twins["sat"] += 1  # a seeded rational point inside the precondition where lhs != 2 rhs
                 continue
             r = dec.decide(pre + side + [z3.Or(*dis)], timeout_ms=10000, seed=seed + 7, guided_first=True, tries=3,
@@ -437,13 +440,20 @@ def _sample_nonzero(polys, V, seed, tries=8, pre=(), case=None):
         for n in V.vars:
             vals.setdefault(n, Fraction(0))
         try:
-            if any(isinstance(d, P) and d.eval(point) != 0 for d in polys):
+            if any((d.eval(point) != 0) if isinstance(d, P) else (d != 0) for d in polys):
                 if pre:
                     subs = [(z3.Real(n), z3.RealVal(str(point[i].numerator)) / z3.RealVal(str(point[i].denominator))) for i, n in enumerate(names)]
-                    if not all(z3.is_true(z3.simplify(z3.substitute(c, *subs))) for c in pre):
+                    bad = next((k for k, c in enumerate(pre) if not z3.is_true(z3.simplify(z3.substitute(c, *subs)))), None)
+                    if bad is not None:
+                        if os.environ.get("VERIF_DEBUG_SAMPLE"):
+                            print(f"[sample] try {t_}: precondition {bad}/{len(pre)} not true: {str(z3.simplify(z3.substitute(pre[bad], *subs)))[:300]} <- {str(pre[bad])[:700]}", file=sys.stderr)
                         continue
                 return vals
-        except Exception:
+            elif os.environ.get("VERIF_DEBUG_SAMPLE"):
+                print(f"[sample] try {t_}: difference vanishes at the point", file=sys.stderr)
+        except Exception as ex:
+            if os.environ.get("VERIF_DEBUG_SAMPLE"):
+                print(f"[sample] exception {type(ex).__name__}: {ex}", file=sys.stderr)
             return None
     return None
 
